@@ -56,7 +56,13 @@ int main(int argc, char** argv) {
                 int fe = (int)((n + memory) % 4);      // rotate through the pointer-array front ends
                 if (set == 4) {
                     std::vector<const char*> cp(n); for (size_t i = 0; i < n; ++i) cp[i] = reinterpret_cast<const char*>(ptrs[i]);
-                    if (lcp) { if (fe % 2) tlx::sort_strings_lcp(cp, lcps.data(), memory); else tlx::sort_strings_lcp(cp.data(), n, lcps.data(), memory); }
+                    if (fe >= 2) {        // the const unsigned char front ends
+                        std::vector<const unsigned char*> up(n); for (size_t i = 0; i < n; ++i) up[i] = ptrs[i];
+                        if (lcp) { if (fe % 2) tlx::sort_strings_lcp(up, lcps.data(), memory); else tlx::sort_strings_lcp(up.data(), n, lcps.data(), memory); }
+                        else { if (fe % 2) tlx::sort_strings(up, memory); else tlx::sort_strings(up.data(), n, memory); }
+                        for (size_t i = 0; i < n; ++i) cp[i] = reinterpret_cast<const char*>(up[i]);
+                    }
+                    else if (lcp) { if (fe % 2) tlx::sort_strings_lcp(cp, lcps.data(), memory); else tlx::sort_strings_lcp(cp.data(), n, lcps.data(), memory); }
                     else { if (fe % 2) tlx::sort_strings(cp, memory); else tlx::sort_strings(cp.data(), n, memory); }
                     for (size_t i = 0; i < n; ++i) ptrs[i] = reinterpret_cast<unsigned char*>(const_cast<char*>(cp[i]));
                 } else if (lcp) {
